@@ -22,6 +22,8 @@ Decides:
                    command can only replace a failure by a success (shared with C08).
  D deeper outcome   between alternatives the branch that entered a subcommand decides, success or failure: the help (or
                    error) produced inside a subcommand is never replaced by a shallower alternative (shared with C07/C08).
+ K tokenized as flag a lone short help/version flag is tokenized as a flag whatever its character width (no byte-length
+                   test decides "single character"), so a non-ASCII replacement help short is still recognised (shared with C02).
  S sequential composition (finding)  in construct! a later field's outcome is dropped without inspection when an
                    earlier field fails, so an inner command's help output can be lost (known finding).
 Does not decide: which of several failing fields is reported for a given line."""
@@ -36,7 +38,7 @@ import scopes, c06
 LEVEL = 'other'
 EXPLANATION = __doc__
 ASSUMPTIONS = ['the help item is an ordinary Long/Short item (tokenizer, C02/C09)']
-FLOORS = {'R.returns': 6, 'H.help-first': 3, 'P.payload': 3, 'I.info': 4, 'A.ambiguity': 2, 'T.combine': 289, 'B.best-effort': 2, 'F.final': 10, 'S.sequential': 3, 'C.command-outcome': 2, 'D.deeper-outcome': 8}
+FLOORS = {'R.returns': 6, 'H.help-first': 3, 'P.payload': 3, 'I.info': 4, 'A.ambiguity': 2, 'T.combine': 289, 'B.best-effort': 2, 'F.final': 10, 'S.sequential': 3, 'C.command-outcome': 2, 'D.deeper-outcome': 8, 'K.tokenized-as-flag': 2}
 
 def run(ctx):
     cfgs = ['none', 'all'] if ctx.tier == 'quick' else ['none', 'all', 'ac', 'doc', 'dull']
@@ -56,6 +58,8 @@ def run(ctx):
         for o in keep: o.rule = 'C.command-outcome'
         ctx.obs = ctx.obs[:before] + keep
         import c07
+        import c02
+        ctx.guard(c08.keep_only, ctx, lambda: c02.boundaries(ctx, cfg, fs), lambda o: 'byte-length' in o.key or 'width-table' in o.key, 'K.tokenized-as-flag')
         ctx.guard(c08.keep_only, ctx, lambda: c07.table(ctx, cfg, fs), lambda o: 'depth=Less' in o.key or 'depth=Greater' in o.key, 'D.deeper-outcome')
     ctx.guard(sequential, ctx)
 
